@@ -5,6 +5,7 @@ import Heathcliff.Proofs.C02K
 import Heathcliff.Proofs.GenEval
 import Heathcliff.Proofs.GenScalingSpec
 import Heathcliff.Proofs.GenPolySpec
+import Heathcliff.Proofs.GenEvalCt
 
 /- Property theorems only (statements verbatim; proofs are the helper lemmas of Heathcliff/Proofs). -/
 namespace HC.C02
@@ -424,5 +425,53 @@ theorem gen_poly_dyadic_product_spec : type_of% @HC.gen_poly_dyadic_product_spec
 example : GenP.poly_add [5, 96] [95, 3] gz_m97 [0, 0] = .ok [3, 2] := by
   have h := HC.gen_poly_add_spec gz_m97_wf [5, 96] [95, 3] [0, 0] (by decide) (by decide) (by decide) (by decide)
   exact h
+
+/-! ### translator tie, phases 4b' / 4d: the multi-component wrappers of polysmallmod.rs on the flat layout = the model's `RnsPoly` operations
+    (Proofs/GenPolyRns.lean), and the ciphertext-level `negate_inplace` / `translate_inplace` of src/evaluator.rs (Proofs/GenEvalCt.lean) -/
+
+/-- `add_inplace_p` on the flat layout = `rnsAdd` on `unflattenRns` -/
+theorem gen_poly_add_inplace_p_model : type_of% @HC.gp_poly_add_inplace_p_model := @HC.gp_poly_add_inplace_p_model
+
+/-- `sub_inplace_p` = `rnsSub` -/
+theorem gen_poly_sub_inplace_p_model : type_of% @HC.gp_poly_sub_inplace_p_model := @HC.gp_poly_sub_inplace_p_model
+
+/-- `negate_inplace_p` = `rnsNeg` -/
+theorem gen_poly_negate_inplace_p_model : type_of% @HC.gp_poly_negate_inplace_p_model := @HC.gp_poly_negate_inplace_p_model
+
+/-- `dyadic_product_inplace_p` = `rnsDyadic` -/
+theorem gen_poly_dyadic_product_inplace_p_model : type_of% @HC.gp_poly_dyadic_product_inplace_p_model := @HC.gp_poly_dyadic_product_inplace_p_model
+
+/-- `multiply_scalar_inplace_p` = `compsMap l.qs · (mulMod · scalar)` -/
+theorem gen_poly_multiply_scalar_inplace_p_model : type_of% @HC.gp_poly_multiply_scalar_inplace_p_model := @HC.gp_poly_multiply_scalar_inplace_p_model
+
+/-- `add_inplace_ps`: `rnsAdd` of the first `pcount` polynomials, the rest kept -/
+theorem gen_poly_add_inplace_ps_model : type_of% @HC.gp_poly_add_inplace_ps_model := @HC.gp_poly_add_inplace_ps_model
+
+/-- `sub_inplace_ps` -/
+theorem gen_poly_sub_inplace_ps_model : type_of% @HC.gp_poly_sub_inplace_ps_model := @HC.gp_poly_sub_inplace_ps_model
+
+/-- `negate_inplace_ps` -/
+theorem gen_poly_negate_inplace_ps_model : type_of% @HC.gp_poly_negate_inplace_ps_model := @HC.gp_poly_negate_inplace_ps_model
+
+/-- `multiply_scalar_inplace_ps` -/
+theorem gen_poly_multiply_scalar_inplace_ps_model : type_of% @HC.gp_poly_multiply_scalar_inplace_ps_model := @HC.gp_poly_multiply_scalar_inplace_ps_model
+
+/-- FLATTEN LEMMA: `flattenRns` of a list of `n`-blocks = their concatenation -/
+theorem flattenRns_blocks : type_of% @HC.flattenRns_blocks := @HC.flattenRns_blocks
+
+/-- `Evaluator::negate_inplace` (skeleton over the flat buffer) = `ctNegate` -/
+theorem gen_ct_negate_inplace_eq : type_of% @HC.gc_negate_inplace_eq := @HC.gc_negate_inplace_eq
+
+/-- … an invalid ciphertext is refused -/
+theorem gen_ct_negate_inplace_refuses : type_of% @HC.gc_negate_inplace_refuses := @HC.gc_negate_inplace_refuses
+
+/-- `Evaluator::translate_inplace` (add / sub), equal factors and equal sizes = `ctTranslate` -/
+theorem gen_ct_translate_inplace_same_size : type_of% @HC.gc_translate_inplace_same_size := @HC.gc_translate_inplace_same_size
+
+/-- PARTIAL (flat level): unequal factors: both operands scaled over all their polynomials, then the equal-factor routine -/
+theorem gen_ct_translate_inplace_balance_partial : type_of% @HC.gc_translate_inplace_balance_partial := @HC.gc_translate_inplace_balance_partial
+
+/-- PARTIAL (flat level): `size1 < size2`, subtraction: common part subtracted, tail copied and negated -/
+theorem gen_ct_translate_inplace_sub_tail_partial : type_of% @HC.gc_translate_inplace_sub_tail_partial := @HC.gc_translate_inplace_sub_tail_partial
 
 end HC.C02
